@@ -18,8 +18,23 @@ OpCall(f, a) ==
       [] f = "OP_PERCENT" -> OpPct(a[1])
       [] OTHER            -> ApplyBin(OpSym(f), a[1], a[2])
 
+\* information functions (C07): the error inspectors and the type reporters
+InfoFuncs == {"ISERROR", "ISERR", "ISNA", "NA", "ISNUMBER", "ISTEXT", "ISBLANK"}
+InfoCall(f, a) ==
+    CASE f = "NA" -> Err("#N/A")
+      [] f = "ISERROR" -> Bool(a[1].t = "err")
+      [] f = "ISERR"   -> Bool(a[1].t = "err" /\ a[1].v # "#N/A")
+      [] f = "ISNA"    -> Bool(a[1].t = "err" /\ a[1].v = "#N/A")
+      \* the type of a non-error value, reported without altering it (error arguments: left open)
+      \* (a date is a number to Excel but a type of its own in the property's list: left open;
+      \*  an empty text is how the library spells an empty cell: ISBLANK of it is left open)
+      [] f = "ISNUMBER" -> IF a[1].t \in {"err", "date"} THEN Open ELSE Bool(a[1].t = "num")
+      [] f = "ISTEXT"   -> IF a[1].t = "err" THEN Open ELSE Bool(a[1].t = "txt")
+      [] f = "ISBLANK"  -> IF a[1].t = "err" \/ (a[1].t = "txt" /\ a[1].v = <<>>) THEN Open ELSE Bool(a[1].t = "blank")
+
 Call(f, a) ==
     CASE f \in TextFuncs -> TextCall(f, a)
       [] f \in OpFuncs   -> OpCall(f, a)
+      [] f \in InfoFuncs -> InfoCall(f, a)
       [] OTHER           -> Open
 =============================================================================
